@@ -66,7 +66,21 @@ def gconfigs(tier):
     # 64-bit bus: sizes 0..3
     L.append(({"cls": "B2B", "tag": "bus64"}, {"bus": 8, "addrs": [0, 5, 8, 16, 24, 28, 31, 56], "lens": [0, 1, 3],
                                "maxsize": 3, "bursts": [0, 1, 2], "ids": [0, 2]}))
+    # idle junk: while the producer offers nothing (valid low) the request lines carry the payload of other requests
+    # or values that are no request at all (cfg field `junk`, AxiB2BContract!JunkLines); every stall pattern
+    L.append(({"cls": "B2B", "tag": "bus32-idlejunk"}, {"bus": 4, "addrs": [0, 2, 13, 60], "lens": [0, 1, 3],
+                               "maxsize": 2, "bursts": [0, 1, 2], "ids": [1],
+                               "junk": [[5, 255, 7, 3, 3], [4095, 16, 1, 2, 0]]}))
+    # an expander built for FIXED and INCR only (capabilities={FIXED, INCR}, what an AXI slave without WRAP support
+    # instantiates): INCR and FIXED bursts must be expanded exactly as by the full expander
+    L.append(({"cls": "B2B", "caps": [0, 1]}, {"bus": 4, "addrs": [0, 1, 6, 13, 62], "lens": [0, 1, 2, 3], "maxsize": 2,
+                                                  "bursts": [0, 1], "ids": [2]}))
     if tier == "thorough":
+        L.append(({"cls": "B2B", "tag": "bus64-idlejunk"}, {"bus": 8, "addrs": [0, 5, 8, 24, 31, 56], "lens": [0, 1, 3],
+                                   "maxsize": 3, "bursts": [0, 1, 2], "ids": [0, 2],
+                                   "junk": [[7, 255, 7, 3, 1], [0, 200, 0, 1, 3]]}))
+        L.append(({"cls": "B2B", "caps": [0, 1], "tag": "bus64"}, {"bus": 8, "addrs": [0, 5, 8, 16, 28, 31, 56, 4088],
+                                   "lens": [0, 1, 3, 7], "maxsize": 3, "bursts": [0, 1], "ids": [0, 3]}))
         L.append(({"cls": "B2B", "tag": "bus32-dense"}, {"bus": 4, "addrs": list(range(0, 32)) + [4088, 4092], "lens": [0, 1, 2, 3],
                                    "maxsize": 2, "bursts": [0, 1, 2], "ids": [3]}))
         L.append(({"cls": "B2B", "tag": "bus128"}, {"bus": 16, "addrs": [0, 7, 16, 32, 48, 96, 112, 120], "lens": [0, 1, 3, 7],
@@ -95,7 +109,10 @@ def b2b_record(job):
 
     job = (requests, stallmode, seed, engine); request = (page, off, len, size, burst, id);
     stallmode 0: consumer always ready, no gap between requests; 1: seeded random ready and gaps;
-    2: heavy stalls.  -> one case per request:
+    2: heavy stalls; 3: as 1, but every request is preceded by idle cycles and the request lines carry junk while
+    nothing is offered (the payload of the next or of the previous request, or random bits - a stream producer
+    defines its payload only under valid).  -> one case per request (mode 3: with "junk" = number of idle cycles
+    with a non-zero payload):
        {"req": [...], "cyc": [[offered, ready, sink_ready, valid, page, off, first, last, id], ...]}
     The cycle list of a case starts after the previous request was consumed (so it contains the idle
     cycles in front of the request) and ends with the cycle in which the request is consumed, or
@@ -104,12 +121,14 @@ def b2b_record(job):
     rnd = random.Random(seed)
     st = _b2b_stepper(engine)
     st.load(st.reset_state, (0, 0, 0, 0, 0, 0, 0))
-    pready = {0: 1.0, 1: 0.6, 2: 0.25}[stallmode]
+    pready = {0: 1.0, 1: 0.6, 2: 0.25, 3: 0.6}[stallmode]
     out = []
+    prev = (0, 0, 0, 0, 0)
     for (page, off, ln, size, burst, rid) in reqs:
         cyc = []
-        gap = 0 if stallmode == 0 else rnd.choice((0, 0, 1, 2))
+        gap = 0 if stallmode == 0 else rnd.choice((1, 1, 2, 3)) if stallmode == 3 else rnd.choice((0, 0, 1, 2))
         addr = page * PAGE + off
+        njunk = 0
         budget = (ln + 2) * (1 if stallmode == 0 else 40) + 50
         done = False
         while not done and budget > 0:
@@ -117,14 +136,26 @@ def b2b_record(job):
             offered = 0 if gap > 0 else 1
             gap -= 1 if gap > 0 else 0
             ready = 1 if rnd.random() < pready else 0
-            iv = (1, addr, ln, size, burst, rid, ready) if offered else (0, 0, 0, 0, 0, 0, ready)
+            if offered:
+                iv = (1, addr, ln, size, burst, rid, ready)
+            elif stallmode == 3:
+                k = rnd.randrange(3)
+                lines = ((addr, ln, size, burst, rid), prev,
+                         (rnd.getrandbits(32), rnd.randrange(256), rnd.randrange(8), rnd.randrange(4), rnd.randrange(16)))[k]
+                iv = (0,) + tuple(lines) + (ready,)
+                njunk += 1 if any(lines) else 0
+            else:
+                iv = (0, 0, 0, 0, 0, 0, ready)
             st.load(st.state(), iv)
             o = st.peek()
             st.tick()
             cyc.append([offered, ready, o[0], o[1], o[2] // PAGE, o[2] % PAGE, o[3], o[4], o[5]])
             if offered and o[0] == 1:
                 done = True
+        prev = (addr, ln, size, burst, rid)
         out.append({"req": [page, off, ln, size, burst, rid], "cyc": cyc})
+        if stallmode == 3:
+            out[-1]["junk"] = njunk
     return out
 
 
@@ -216,8 +247,14 @@ def conv_record(job):
     """job = (spec, cases, engine).  Every case is run from the reset state of the converter:
     case = {"writes": [[addr, len, size, burst, id, resp], ...], "reads": [...], "seed", "stall", ...}
     The master issues the writes (AW and W independently) and the reads in order, pipelined; the slave answers
-    in order.  Recorded: every transfer (valid & ready) of every channel on both sides, with its cycle number."""
+    in order.  Recorded: every transfer (valid & ready) of every channel on both sides, with its cycle number.
+    case["junk"]: while the valid of a channel driven by the Env (master AW/W/AR, slave B/R) is low, its payload
+    lines and `last` carry seeded random bits instead of zeros (AXI defines them only under valid); the junk comes
+    from a generator of its own, so the schedule of the run is the one the same seed gives without junk.
+    Recorded as well: junk_cycles (channel-cycles with valid low and non-zero lines) and junk_last (those of W/R
+    with `last` high)."""
     spec, cases, engine = job
+    idw = spec.get("idw", 4)
     st = _conv_stepper(spec, engine)
     fb, tb = spec["from"] // 8, spec["to"] // 8
     out = []
@@ -229,6 +266,17 @@ def conv_record(job):
         def go():
             return mode == 0 or rnd.random() < pgo
         writes, reads = case["writes"], case["reads"]
+        jr = random.Random(case["seed"] ^ 0x6a756e6b) if case.get("junk") else None
+        njunk = [0, 0]
+
+        def idle(widths, has_last=False):
+            """lines of a channel whose valid is low"""
+            if jr is None:
+                return (0,) * (len(widths) + 1)
+            v = tuple(jr.getrandbits(w) for w in widths)
+            njunk[0] += 1 if any(v) else 0
+            njunk[1] += 1 if has_last and v[-1] else 0
+            return (0,) + v
         # master W beats
         wbeats = []
         for k, (addr, ln, size, burst, wid, resp) in enumerate(writes):
@@ -281,15 +329,15 @@ def conv_record(job):
             aw = writes[i_aw] if v_aw else None
             wb = wbeats[i_w] if v_w else None
             ar = reads[i_ar] if v_ar else None
-            iv = ((1, aw[0], aw[1], aw[2], aw[3], aw[4]) if aw else (0, 0, 0, 0, 0, 0)) + \
-                 ((1, wb[0], wb[1], wb[2]) if wb else (0, 0, 0, 0)) + \
+            iv = ((1, aw[0], aw[1], aw[2], aw[3], aw[4]) if aw else idle((32, 8, 3, 2, idw))) + \
+                 ((1, wb[0], wb[1], wb[2]) if wb else idle((8 * fb, fb, 1), True)) + \
                  (1 if go() else 0,) + \
-                 ((1, ar[0], ar[1], ar[2], ar[3], ar[4]) if ar else (0, 0, 0, 0, 0, 0)) + \
+                 ((1, ar[0], ar[1], ar[2], ar[3], ar[4]) if ar else idle((32, 8, 3, 2, idw))) + \
                  (1 if go() else 0,) + \
                  (1 if go() else 0, 1 if go() else 0) + \
-                 ((1, b_cur[0], b_cur[1]) if b_cur else (0, 0, 0)) + \
+                 ((1, b_cur[0], b_cur[1]) if b_cur else idle((idw, 2))) + \
                  (1 if go() else 0,) + \
-                 ((1, r_cur[0], r_cur[1], r_cur[2], r_cur[3]) if r_cur else (0, 0, 0, 0, 0))
+                 ((1, r_cur[0], r_cur[1], r_cur[2], r_cur[3]) if r_cur else idle((8 * tb, 2, idw, 1), True))
             st.load(st.state(), iv)
             o = st.peek()
             st.tick()
@@ -350,5 +398,7 @@ def conv_record(job):
         rec["reads"] = [list(r) for r in reads]
         rec["cfg"] = {"fb": fb, "tb": tb}
         rec["cls"] = case.get("cls", "supported")
+        rec["junk"] = 1 if jr is not None else 0
+        rec["junk_cycles"], rec["junk_last"] = njunk
         out.append(rec)
     return out
